@@ -61,7 +61,9 @@ def make_spec(rng: Rng, alg, enc, form) -> dict:
     return {"alg": alg, "enc": enc, "form": form, "key": rk.to_jwk(key, True), "sender": rk.to_jwk(sender, True) if sender else None,
             "zip": rng.chance(0.2), "supply_p2c": alg in rjwe.PBES2 and rng.chance(0.5),
             # the header template was copied from an earlier token: it still carries that token's computed members
-            "stale_template": (alg.endswith("GCMKW") or alg.startswith("ECDH")) and rng.chance(0.35)}
+            "stale_template": (alg.endswith("GCMKW") or alg.startswith("ECDH")) and rng.chance(0.35),
+            # a relay: every encryption works on the (fresh) object the previous token was decrypted into
+            "relay": form != "compact" and (alg == "dir" or alg in rjwe.KW_BITS or alg.startswith("RSA")) and rng.chance(0.3)}
 
 
 MULTI_ALGS = ["ECDH-ES+A128KW", "ECDH-ES+A192KW", "ECDH-ES+A256KW", "ECDH-1PU+A128KW", "ECDH-1PU+A256KW", "A128KW", "A256KW",
@@ -140,7 +142,13 @@ def produce_history(spec: dict, n: int) -> list:
     with warnings.catch_warnings():
         warnings.simplefilter("ignore")
         stale = {}
+        relay_priv = K.to_jose_fast(key, True) if spec.get("relay") else None
         for i in range(n):
+            if relay_priv is not None and out:
+                obj = jwe.decrypt_json(copy.deepcopy(out[-1]), relay_priv, registry=reg)
+                obj.plaintext = b"same plaintext"
+                out.append(jwe.encrypt_json(obj, None, registry=reg))
+                continue
             hdr = {"alg": alg, "enc": enc}
             if spec["zip"]:
                 hdr["zip"] = "DEF"
